@@ -652,6 +652,43 @@ pub fn detectors(m: &Model, ctx: &mut Ctx, rule: &str) {
     ctx.floor(&format!("{}/evaluations", rule), n, 20);
 }
 
+/// C09.shortcircuit: "at any depth, any number": a linking step applied to the components of a type through
+/// `iter_mut().any(..)` / `.all(..)` stops at the first component for which the step reports success — the
+/// remaining components are never linked. No short-circuiting adaptor may consume an `iter_mut()` in the linker.
+pub fn short_circuit(m: &Model, ctx: &mut Ctx, rule: &str) {
+    let mut n = 0;
+    for f in m.fns.iter().filter(|f| f.krate == "rasn-compiler" && (f.module.starts_with("validator") || f.module.starts_with("intermediate")) && !f.module.contains("tests")) {
+        for mc in model::method_calls_in(&f.block) {
+            let name = mc.method.to_string();
+            if !["any", "all"].contains(&name.as_str()) {
+                continue;
+            }
+            // receiver chain contains iter_mut()
+            let mut r: &syn::Expr = &mc.receiver;
+            let mut over_mut = false;
+            loop {
+                match r {
+                    syn::Expr::MethodCall(inner) => {
+                        if inner.method == "iter_mut" || inner.method == "values_mut" {
+                            over_mut = true;
+                        }
+                        r = &inner.receiver;
+                    }
+                    _ => break,
+                }
+            }
+            if !over_mut {
+                continue;
+            }
+            n += 1;
+            ctx.violate(rule, &format!("short-circuit-over-iter_mut:{}", f.name), &f.file, model::line_of(syn::spanned::Spanned::span(&mc)),
+                &format!("{} applies `.{}(..)` to an `iter_mut()`: the closure changes the elements it is shown, and `.{}` stops at the first element that answers — the elements behind it are never linked (`a SEQUENCE {{ COMPONENTS OF B }}, b SEQUENCE {{ COMPONENTS OF B }}`: b keeps its unexpanded notation)", f.name, name, name));
+        }
+    }
+    ctx.oblige(rule, "no-short-circuit-over-iter_mut", true);
+    let _ = n;
+}
+
 pub fn run(m: &Model, ctx: &mut Ctx) {
     ctx.explanation = "C09.sym: each detector/rewriter pair of the linker (contains_components_of_notation / link_components_of_notation, has_choice_selection_type / link_choice_selection_type, \
 contains_constraint_reference / link_constraint_reference, references_class_by_name / resolve_class_reference) must traverse the same container variants of ASN1Type: a container the detector enters but the rewriter does not (or vice versa) leaves a notation unexpanded at that position. \
@@ -696,6 +733,7 @@ Not applicable: the equivalence sugared = expanded itself, independence from the
     scope(m, ctx, "C09.scope");
     traverse(m, ctx, "C09.traverse");
     detectors(m, ctx, "C09.detect");
+    short_circuit(m, ctx, "C09.shortcircuit");
     select(m, ctx, "C09.select");
     // a class-field reference is replaced by the field's type and nothing else changes (= C02.rebuild)
     crate::rules::c02::rebuild(m, ctx, "C09.rebuild");
